@@ -143,4 +143,23 @@ Section Track.
     rewrite <- (tableau_tracks n gs Hgs) by (first [exact Hw | simpl; apply unit_bits_length]).
     apply (lg_run_ext n); [|exact Hw]. intros k Hk. apply ket_stabilized; [exact Hbits|lia|exact Hk].
   Qed.
+
+  (* ---- what pauli_act means: a string with a single non-identity factor acts as that Pauli matrix on that axis
+     (ties the coefficients c1 / the flips fl to the matrices pm of TableauSem.v) ---- *)
+  Theorem pauli_act_single n a x z r (P : list pbit) (psi : tensor (K:=K)) i :
+    a < n -> length P = n -> (forall k, nth k P II = II) -> wf n i ->
+    pauli_act O (mkRow (set_nth P a (x, z)) r) psi i
+    = apply O (mat_of O [2] (pms1 O (x, z, r))) [2] [a] psi i.
+  Proof.
+    intros Ha HlP HP [Hl Hb]. unfold pauli_act. simpl rbits. simpl rsign.
+    rewrite (coef_set O L P i a (x, z)) by lia.
+    rewrite (xflip_set P i a (x, z)) by lia.
+    rewrite coef_allII.
+    2:{ intros k. destruct (Nat.eq_dec a k) as [<-|Hne]; [apply nth_set_nth_same; unfold pbit in *; lia|].
+        rewrite nth_set_nth_other by exact Hne. apply HP. }
+    rewrite xflip_nox by (intros k; rewrite HP; reflexivity).
+    rewrite apply1_nf. simpl fst.
+    assert (Hg : get i a < 2) by (apply (wf_get n); split; assumption).
+    destruct (get i a) as [|[|b]] eqn:Eg; [| |lia]; destruct x, z, r; simpl fl; cbv -[kadd kmul kopp ksub kconj k0 k1 ki khalf ks2 upd]; ring.
+  Qed.
 End Track.
